@@ -6,8 +6,11 @@ syntax:
 definitely_tag_free(cls, s)
     True only if `s` cannot contain a tag under any reading of the grammar:
     HTML class: no '<dtml-' or '</dtml-' that is followed anywhere later by
-    '>', no '<!--#' followed later by '-->', no '&dtml-' / '&dtml.' followed
-    later by ';'.  String class: no '%(' followed later by ')'.
+    '>', no '<!--#' followed later by '-->', no '&dtml-' / '&dtml.' whose
+    text up to the next ';' consists of name characters only (an entity
+    reference is '&dtml-name;' or '&dtml.fmt.fmt-name;': a blank, line end
+    or any other character before the ';' means it is not one).  String
+    class: no '%(' followed later by ')'.
 
 cleanly_tagged(cls, src, spans)
     True only if every occurrence of a tag opener in `src` is the start of a
@@ -27,9 +30,27 @@ def openers(cls):
     return EPFS_OPENERS if cls == 'String' else HTML_OPENERS
 
 
+ENTITY_BODY = frozenset('abcdefghijklmnopqrstuvwxyzABCDEFGHIJKLMNOPQRSTUVWXYZ'
+                        '0123456789-_.')
+
+
+def possible_entity_at(s, i):
+    """s[i:] starts with '&dtml-' or '&dtml.': can an entity start here?"""
+    e = s.find(';', i + 5)
+    if e < 0:
+        return False
+    return all(c in ENTITY_BODY for c in s[i + 5:e])
+
+
 def definitely_tag_free(cls, s):
     for op, closer in openers(cls):
         i = s.find(op)
+        if op.startswith('&dtml'):
+            while i >= 0:
+                if possible_entity_at(s, i):
+                    return False
+                i = s.find(op, i + 1)
+            continue
         if i >= 0 and s.find(closer, i + len(op)) >= 0:
             return False
     return True
